@@ -66,7 +66,7 @@ inductive Chart (G : Grammar) (L : Lattice) (start : Nat) : Nat → Item → Pro
       Chart G L start j ⟨r, d, k⟩
   | complete (i j r' r d k) : Chart G L start i ⟨r', r'.rhs.length, j⟩ → Chart G L start j ⟨r, d, k⟩ →
       r.rhs[d]? = some (Sym.nt r'.lhs) → Chart G L start i ⟨r, d+1, k⟩
-  | carry (i j r k) : Chart G L start i ⟨r, r.rhs.length, k⟩ → r.lhs = start → L.ign i j →
+  | carry (i j r k) : Chart G L start i ⟨r, r.rhs.length, k⟩ → r.lhs = start → k = 0 → L.ign i j →
       Chart G L start j ⟨r, r.rhs.length, k⟩
 
 /-- unrestricted path: ignore edges anywhere -/
@@ -102,7 +102,7 @@ theorem Chart.rule_mem {G : Grammar} {L : Lattice} {start i it} (h : Chart G L s
   | scan i j r d k a _ _ _ ih => exact ih
   | ignore i j r d k a _ _ _ ih => exact ih
   | complete i j r' r d k _ _ _ _ ih2 => exact ih2
-  | carry i j r k _ _ _ ih => exact ih
+  | carry i j r k _ _ _ _ ih => exact ih
 
 /-- Soundness of every chart item. -/
 theorem Chart.sound {G : Grammar} {L : Lattice} {start i it} (h : Chart G L start i it) :
@@ -132,7 +132,7 @@ theorem Chart.sound {G : Grammar} {L : Lattice} {start i it} (h : Chart G L star
     have : DerivesSeq G [Sym.nt r'.lhs] (ts1 ++ []) :=
       DerivesSeq.nonterm r' [] ts1 [] hmem (by simpa using hder1) DerivesSeq.nil
     simpa using this
-  | carry i j r k _ _ hi ih =>
+  | carry i j r k _ _ _ hi ih =>
     obtain ⟨ts, hp, hder⟩ := ih
     refine ⟨ts, ?_, hder⟩
     have := hp.append (Path.ign i j j [] hi (Path.nil j))
